@@ -39,6 +39,7 @@ type renderCase struct {
 	Query      string          `json:"raw_query,omitempty"`                                         // the request's query string: nothing in it is an argument of the render
 	CtxDone    bool            `json:"request_context_done_before_rendering,omitempty"`             // the rendering handler cancels the request's context first (a time-limit pattern that reports 504 through the renderer): the render is still sent
 	Counting   bool            `json:"value_counts_its_encodings,omitempty"`                        // json | xml: the value's marshaler reports how many times it has been asked: the body is the first encoding
+	Head       bool            `json:"head_request,omitempty"`                                      // the route is registered for HEAD and asked with HEAD: same status and header, no body, and the render ends like any other
 	EnvMade    string          `json:"env_when_renderer_was_created,omitempty"`                     // process environment while Renderer(...) was called ("" = untouched; serial cases only)
 	EnvServed  string          `json:"env_when_request_was_served,omitempty"`                       // process environment while the request was served: what is rendered depends on neither
 }
@@ -131,6 +132,7 @@ func genRenderCase(rng *rand.Rand) *renderCase {
 		Depth:      rng.Intn(3),
 		Where:      []string{"app", "group", "route"}[rng.Intn(3)],
 		Overlap:    rng.Intn(5) == 0,
+		Head:       rng.Intn(6) == 0,
 		PresetCT:   rng.Intn(4) == 0,
 		Spread:     rng.Intn(6) == 0,
 		EditCT:     rng.Intn(8) == 0,
@@ -138,6 +140,9 @@ func genRenderCase(rng *rand.Rand) *renderCase {
 		Query:      []string{"", "", "", "pretty", "pretty=true&page=2", "page=2&pretty=false", "indent=4", "format=xml", "callback=cb", "_method=GET", "charset=gbk"}[rng.Intn(11)],
 		CtxDone:    rng.Intn(10) == 0,
 		Counting:   rng.Intn(12) == 0,
+	}
+	if c.Overlap {
+		c.Head = false // the overlapping request is recognised by its body
 	}
 	switch c.Kind {
 	case "json":
@@ -205,6 +210,12 @@ func renderVerdict(c *renderCase, o renderObs) string {
 	wantCT := map[string]string{"json": "application/json; charset=" + cs, "xml": "text/xml; charset=" + cs, "binary": "application/octet-stream", "text": "text/plain; charset=" + cs}[c.Kind]
 	if o.ctype != wantCT {
 		return fmt.Sprintf("Content-Type %q, want %q", o.ctype, wantCT)
+	}
+	if c.Head {
+		if len(o.body) != 0 {
+			return fmt.Sprintf("HEAD request: a body was sent: %q", clip(string(o.body)))
+		}
+		return ""
 	}
 	if c.Counting && (c.Kind == "json" || c.Kind == "xml") {
 		want := `{"serial":1}`
@@ -464,14 +475,19 @@ func judgeRender(w *core.W, c *renderCase) {
 		f.Use(flamego.Renderer(flamego.RenderOptions{Charset: "outer-charset", JSONIndent: "\t\t\t", XMLIndent: "\t\t\t"}))
 		w.Count("nested-renderers")
 	}
+	post, meth := f.Post, "POST"
+	if c.Head {
+		post, meth = f.Head, "HEAD"
+		w.Count("head-requests")
+	}
 	switch c.Where {
 	case "app":
 		f.Use(rnd)
-		f.Post("/r", hs...)
+		post("/r", hs...)
 	case "group":
-		f.Group("/g", func() { f.Post("/r", hs...) }, rnd)
+		f.Group("/g", func() { post("/r", hs...) }, rnd)
 	default:
-		f.Post("/r", hs...)
+		post("/r", hs...)
 	}
 	// another Renderer with other options, created later for another part of the application (or another
 	// instance): each Renderer keeps its own options
@@ -490,7 +506,7 @@ func judgeRender(w *core.W, c *renderCase) {
 			defer close(otherDone)
 			defer func() { _ = recover() }()
 			<-gotRender
-			f.ServeHTTP(other, &http.Request{Method: "POST", URL: &url.URL{Path: target}, Header: http.Header{"X-Who": {"b"}}})
+			f.ServeHTTP(other, &http.Request{Method: meth, URL: &url.URL{Path: target}, Header: http.Header{"X-Who": {"b"}}})
 		}()
 	}
 	func() {
@@ -526,10 +542,10 @@ func judgeRender(w *core.W, c *renderCase) {
 			w.Count("earlier-render-failed:" + c.FailFirst)
 		}
 		if c.EditCT {
-			f.ServeHTTP(&retSpy{h: http.Header{}}, &http.Request{Method: "POST", URL: &url.URL{Path: target}, Header: http.Header{"X-Prime": {"1"}}})
+			f.ServeHTTP(&retSpy{h: http.Header{}}, &http.Request{Method: meth, URL: &url.URL{Path: target}, Header: http.Header{"X-Prime": {"1"}}})
 			w.Count("earlier-response-edited-its-content-type-in-place")
 		}
-		f.ServeHTTP(spy, &http.Request{Method: "POST", URL: &url.URL{Path: target, RawQuery: c.Query}, Header: http.Header{"X-Who": {"a"}}})
+		f.ServeHTTP(spy, &http.Request{Method: meth, URL: &url.URL{Path: target, RawQuery: c.Query}, Header: http.Header{"X-Who": {"a"}}})
 	}()
 	o.status, o.body, o.ctype = spy.status, spy.body, strings.Join(spy.h.Values("Content-Type"), " | ")
 	if c.Overlap && o.pan == nil {
